@@ -68,7 +68,7 @@ def gen(ch, cfg, prefix):
         # an item that claims to be equal to everything (a wildcard object): data like any other - the library's own
         # markers are recognised by identity
         pos = ch.draw(len(items))
-        items[pos] = Anything(("any", pos))
+        items[pos] = Anything(("any", pos)) if ch.chance(1, 2) else ...  # (or the Ellipsis singleton: data as well)
     sc.src = g.src(items)
     if ch.chance(1, 8):
         # a plain container (can be iterated again from the start): only what the consumer sees is compared then
